@@ -73,6 +73,7 @@ type Opts struct {
 	Media       bool
 	MaxSvcs     int
 	MaxRoutes   int
+	Contest     bool // now and then a table of masks of one literal path (genContest)
 	Adversarial bool // free-form paths, odd bytes
 	Trace       bool // run the real side with trace logging enabled
 }
@@ -163,7 +164,65 @@ func pickMedia(r *rng.R, o Opts) []string {
 }
 
 // GenConfig draws a route table. Root paths are pairwise distinct (Add would os.Exit otherwise).
+// genContest draws a table whose templates are masks of one literal path: every position is held by
+// the literal in some templates and by a variable in others, in random registration order, over two
+// methods — several routes (and, with root variables allowed, several roots) admit the same URL and
+// the ranking has to decide between them.
+func genContest(r *rng.R, o Opts) Config {
+	cfg := Config{Router: o.Router}
+	names, rid := 0, 0
+	nroot, nrel := r.Intn(3), 1+r.Intn(3)
+	base := make([]string, nroot+nrel)
+	for i := range base {
+		base[i] = r.Pick(Lits[:8])
+	}
+	mask := func(lits []string, allowVar bool) []Tok {
+		out := make([]Tok, len(lits))
+		for i, l := range lits {
+			if allowVar && r.Chance(1, 2) {
+				names++
+				out[i] = Tok{Kind: "var", Name: fmt.Sprintf("v%d", names)}
+			} else {
+				out[i] = Tok{Kind: "lit", Lit: l}
+			}
+		}
+		return out
+	}
+	methods := []string{r.Pick(Methods[:5]), r.Pick(Methods[:5])}
+	nsvc := 1
+	if nroot > 0 && o.RootVars {
+		nsvc = 1 + r.Intn(3)
+	}
+	seen := map[string]bool{}
+	for si := 0; si < nsvc; si++ {
+		rootToks := mask(base[:nroot], o.RootVars && nsvc > 1)
+		root := RenderPath(rootToks, o.res())
+		if seen[root] {
+			continue
+		}
+		seen[root] = true
+		s := Service{ID: len(cfg.Services), Root: root, RootToks: rootToks}
+		for ri, n := 0, 3+r.Intn(3); ri < n; ri++ {
+			rel := mask(base[nroot:], true)
+			if ri == 0 && r.Chance(1, 2) {
+				rel = mask(base[nroot:], false) // the exact route, registered first
+			}
+			rd := RouteDecl{ID: rid, Method: r.Pick(methods), Rel: RenderPath(rel, o.res()), Toks: append(append([]Tok{}, rootToks...), rel...)}
+			rid++
+			if o.Media && r.Chance(1, 4) {
+				rd.Produces = pickMedia(r, o)
+			}
+			s.Routes = append(s.Routes, rd)
+		}
+		cfg.Services = append(cfg.Services, s)
+	}
+	return cfg
+}
+
 func GenConfig(r *rng.R, o Opts) Config {
+	if o.Contest && r.Chance(1, 5) {
+		return genContest(r, o)
+	}
 	cfg := Config{Router: o.Router}
 	names := 0
 	nsvc := 1 + r.Intn(o.MaxSvcs)
@@ -174,6 +233,29 @@ func GenConfig(r *rng.R, o Opts) Config {
 		var root string
 		for try := 0; ; try++ {
 			rootToks = genToks(r, o, r.Intn(3), &names, true)
+			if si > 0 && o.RootVars && try < 5 && r.Chance(1, 3) {
+				// a twist of an earlier root: same length, literal and variable positions flipped here and
+				// there (LV next to VL, LVV / VLV / VVL …): roots of different shape that claim the same URLs
+				prev := cfg.Services[r.Intn(len(cfg.Services))].RootToks
+				if len(prev) > 0 {
+					rootToks = make([]Tok, len(prev))
+					for i, t := range prev {
+						switch {
+						case r.Chance(1, 2):
+							rootToks[i] = t
+							if t.Kind != "lit" {
+								names++
+								rootToks[i].Name = fmt.Sprintf("v%d", names)
+							}
+						case t.Kind == "lit":
+							names++
+							rootToks[i] = Tok{Kind: "var", Name: fmt.Sprintf("v%d", names)}
+						default:
+							rootToks[i] = Tok{Kind: "lit", Lit: r.Pick(Lits[:8])}
+						}
+					}
+				}
+			}
 			root = RenderPath(rootToks, o.res())
 			if len(rootToks) == 0 && r.Chance(1, 3) {
 				root = "" // WebService.Path("") normalises to "/"
@@ -214,7 +296,17 @@ func GenConfig(r *rng.R, o Opts) Config {
 				rel = append([]Tok{}, prev.Toks[len(rootToks):]...)
 				if len(rel) > 0 && r.Chance(2, 3) {
 					i := r.Intn(len(rel))
-					rel[i] = genTok(r, o, &names, i == len(rel)-1, false)
+					switch {
+					case rel[i].Kind == "lit" && rel[i].Verb == "" && r.Chance(1, 2):
+						// the same place held by a variable: a less specific twin of the earlier route
+						names++
+						rel[i] = Tok{Kind: "var", Name: fmt.Sprintf("v%d", names)}
+					case rel[i].Kind == "var" && rel[i].Verb == "" && r.Chance(1, 2):
+						// … or a more specific one
+						rel[i] = Tok{Kind: "lit", Lit: r.Pick(Lits[:8])}
+					default:
+						rel[i] = genTok(r, o, &names, i == len(rel)-1, false)
+					}
 				}
 			} else {
 				rel = genToks(r, o, r.Intn(4), &names, false)
@@ -332,7 +424,22 @@ func GenReq(r *rng.R, o Opts, cfg Config) Req {
 	}
 	rt := routes[r.Intn(len(routes))]
 	segs := []string{}
-	for _, t := range rt.Toks {
+	contested := r.Chance(1, 5) // every variable takes a literal another template has at its position
+	for i, t := range rt.Toks {
+		if (t.Kind == "var" || t.Kind == "re") && t.Verb == "" && (contested || r.Chance(1, 3)) {
+			// the literal another template has at this position: a URL that several templates
+			// (of the same or of another service) admit, so that the ranking has something to decide
+			var lits []string
+			for _, other := range routes {
+				if i < len(other.Toks) && other.Toks[i].Kind == "lit" && other.Toks[i].Verb == "" {
+					lits = append(lits, other.Toks[i].Lit)
+				}
+			}
+			if len(lits) > 0 {
+				segs = append(segs, r.Pick(lits))
+				continue
+			}
+		}
 		segs = append(segs, instantiate(r, o, t)...)
 	}
 	// mutations
@@ -524,5 +631,5 @@ func genAccept(r *rng.R, rt RouteDecl, all []RouteDecl) string {
 // FullOpts is the widest generator for a router: every documented template form, media, conditions, adversarial paths.
 func FullOpts(router string) Opts {
 	return Opts{Router: router, AllowRe: true, AllowSuf: router == "curly", AllowWild: true, AllowVerb: router == "curly",
-		RootVars: true, RootRe: true, Conds: true, Media: true, MaxSvcs: 4, MaxRoutes: 6, Adversarial: true}
+		RootVars: true, RootRe: true, Conds: true, Media: true, MaxSvcs: 4, MaxRoutes: 6, Adversarial: true, Contest: true}
 }
